@@ -56,7 +56,13 @@ def one(job):
             rc, out = run_checks(d, [p], tier)
             viol = [l for l in out.splitlines() if l.startswith('VIOLATION')]
             rules = sorted({l.split()[1] for l in out.splitlines() if l.startswith(('src/', 'derive/', '-  ', 'witness', 'fuzzer/')) and len(l.split()) > 1})
-            res.append((p, rc, bool(viol), rules, [l[:260] for l in out.splitlines() if l.startswith(('src/', 'derive/', '-  ', 'witness', 'BUILD', 'INTERNAL'))][:6]))
+            lines_ = [l[:260] for l in out.splitlines() if l.startswith(('src/', 'derive/', '-  ', 'witness', 'BUILD', 'INTERNAL'))][:6]
+            if 'BUILD-ERROR' in out or 'INTERNAL' in out:
+                # keep the compiler's / interpreter's message: a build error on a patch that compiles is a harness problem
+                ol = out.splitlines()
+                k0 = next((i for i, l in enumerate(ol) if 'BUILD-ERROR' in l or 'INTERNAL' in l), 0)
+                lines_ = [l[:300] for l in ol[k0:k0 + 25]]
+            res.append((p, rc, bool(viol), rules, lines_))
         return (kind, name, 'ran', res)
     finally:
         shutil.rmtree(d, ignore_errors=True)
